@@ -33,3 +33,23 @@ PROPS["C04"] = {
         {"bin": "c04", "quick": {"cases": 2500, "workers": 16, "budget": 150}, "thorough": {"cases": 60000, "workers": 16, "budget": 1200}},
     ],
 }
+
+PROPS["C05"] = {
+    "level": "exploration",
+    "rule": "rapidcheck-generated call histories (1-12 ops) on a file of every catalogue entry: reads through the 4 types x item/frame variants with request classes {1, odd, B-1, B+1, > 8 KiB, remaining, remaining+1, 3*remaining+2}, seeks, sf_read_raw; "
+            "write histories through the 8 typed entry points + sf_write_raw; every buffer is an exact-size heap block (ASan redzones); non-trivial = a request that is not a multiple of the codec block, exceeds 8192 bytes or crosses end of data; distinct = hash of (format, channels, N, mode, op list)",
+    "assumptions": BASE_ASSUME + ["the reference stream is one sequential read of the whole file through the same sample type on a fresh handle (count/bounds/position contract is under test, not codec fidelity)",
+                                  "the content of buffer[r..requested) after a partial read is not constrained (the statement demands zero fill only at end of data)"],
+    "stages": [
+        {"bin": "c05", "quick": {"cases": 5000, "workers": 16, "budget": 150}, "thorough": {"cases": 40000, "workers": 16, "budget": 1200}},
+    ],
+}
+PROPS["C06"] = {
+    "level": "exploration",
+    "rule": "rapidcheck-generated seek/read histories (2-24 ops) on a file of every catalogue entry: seek whence in {SET,CUR,END} (+SFM_READ), targets {0, random, block edge -1/0/+1, F-1, F, beyond F, negative, current}, reads of every type/variant/size class; "
+            "oracle: data after a successful seek to k equals frames k.. of the sequential reference, seek returns the target or -1 with an error, SEEK_CUR(0) equals the model position; non-trivial = a successful seek strictly inside the file followed by a read; distinct = hash of (format, channels, N, op list)",
+    "assumptions": BASE_ASSUME + ["after an in-range seek that the codec refuses (-1 with an error, allowed by the statement) the history stops: the stream position after a refused seek is not specified"],
+    "stages": [
+        {"bin": "c06", "quick": {"cases": 4000, "workers": 16, "budget": 150}, "thorough": {"cases": 40000, "workers": 16, "budget": 1200}},
+    ],
+}
